@@ -286,6 +286,10 @@ Fixpoint amap_put (overwrite : bool) (k v : bytes) (m : amap) : amap :=
       else (k', v') :: amap_put overwrite k v m'
   end.
 
+(* `if search_variant.is_empty() { continue; }`: a term without letters or digits has no tokens *)
+Definition amap_put_ne (overwrite : bool) (k v : bytes) (m : amap) : amap :=
+  match k with [] => m | _ => amap_put overwrite k v m end.
+
 (* the pluraliser is an oracle: an association list word -> result (identity when absent) *)
 Definition oracle := list (bytes * bytes).
 Definition ask (o : oracle) (w : bytes) : bytes := match amap_get w o with Some r => r | None => w end.
@@ -322,7 +326,7 @@ Definition variant_map_core (acr : acr_tab) (defaults : list style) (sing plur :
   let vms := variant_models sing plur plurals st rt in
   let m := fold_left (fun m s =>
              fold_left (fun m (pr : list bytes * list bytes) =>
-               amap_put false (to_style acr (fst pr) s) (to_style acr (snd pr) s) m) vms m) sts [] in
+               amap_put_ne false (to_style acr (fst pr) s) (to_style acr (snd pr) s) m) vms m) sts [] in
   match styles with
   | None => if ambiguous then m else amap_put true search repl m
   | Some _ => m
@@ -340,6 +344,9 @@ Fixpoint vmap_put (k : bytes) (s : option style) (v : bytes) (m : vmap) : vmap :
       else if bytes_ltb k k' then (k, [(s, v)]) :: m
       else (k', l) :: vmap_put k s v m'
   end.
+
+Definition vmap_put_ne (k : bytes) (s : option style) (v : bytes) (m : vmap) : vmap :=
+  match k with [] => m | _ => vmap_put k s v m end.
 
 Definition vmap_pick (l : list (option style * bytes)) : option bytes :=
   match l with
@@ -361,7 +368,7 @@ Definition variant_map_scanner (acr acr_default : acr_tab) (defaults : list styl
   let m0 := match styles with None => vmap_put search None repl [] | Some _ => [] end in
   fold_left (fun m s =>
     fold_left (fun m (pr : list bytes * list bytes) =>
-      vmap_put (to_style acr_default (fst pr) s) (Some s) (to_style acr_default (snd pr) s) m) vms m)
+      vmap_put_ne (to_style acr_default (fst pr) s) (Some s) (to_style acr_default (snd pr) s) m) vms m)
     sts m0.
 
 Definition vmap_to_amap (m : vmap) : amap :=
